@@ -360,7 +360,17 @@ func randFilter(r *rng, depth int) string {
 	case x < 25:
 		return "A " + orDash(randIDs(r, 3))
 	case x < 40:
-		return "W " + orDash(randIDs(r, 3)) + " " + orDash(randIDs(r, 3))
+		inc, exc := randIDs(r, 3), randIDs(r, 3)
+		if r.chance(30) && inc != "" {
+			// overlapping include / exclude: legal, and must match nothing
+			first := strings.Split(inc, ",")[0]
+			if exc == "" {
+				exc = first
+			} else {
+				exc = exc + "," + first
+			}
+		}
+		return "W " + orDash(inc) + " " + orDash(exc)
 	case x < 50:
 		return "X " + orDash(randIDs(r, 3))
 	case x < 65:
@@ -419,8 +429,22 @@ func pureGen(seed uint64, n int, w io.Writer) {
 			fmt.Fprintf(w, "%s %s %s\n", pick(r, []string{"contains", "containsany"}), a, b)
 		case 5:
 			fmt.Fprintf(w, "iszero %s\nreset %s\ntotal %s\nall %s\n", a, a, a, a)
-		case 6, 7, 8, 9:
+		case 6, 7:
 			fmt.Fprintf(w, "matches %s %s\n", a, randFilter(r, 0))
+		case 8, 9:
+			// a mask correlated with the filter: a random subset of the ids the filter mentions,
+			// sometimes with one extra id, so that matching filters are common
+			f := randFilter(r, 0)
+			ids := []string{}
+			for _, tok := range strings.FieldsFunc(f, func(c rune) bool { return c == ' ' || c == ',' }) {
+				if _, err := strconv.Atoi(tok); err == nil && r.chance(75) {
+					ids = append(ids, tok)
+				}
+			}
+			if r.chance(25) {
+				ids = append(ids, strconv.Itoa(r.intn(bound)))
+			}
+			fmt.Fprintf(w, "matches %s %s\n", orDash(strings.Join(ids, ",")), f)
 		case 10, 11, 12, 13:
 			opt := func(s string) string {
 				if r.chance(25) {
